@@ -251,7 +251,7 @@ class Gen:
             self.bind(self.r.choice(self.bevs))
 
     def op_reset(self):
-        if self.inside == 'c02' and (self.fresh_only or self.phase2):
+        if self.inside == 'c02' and self.phase2:
             return
         p = self.pick(lambda p, d: d['bound']) if self.r.random() < 0.85 else self.pick()
         if p is not None:
